@@ -112,6 +112,8 @@ class Gen:
         self.classes = []
         self.features = features        # None = everything; else a set of enabled feature names
         self.stmt_budget = 0
+        self.tr = None                  # name of the tracing helper `def tr(v): print("tr", v); return v` (if defined)
+        self.probes = []                # evaluation-order / evaluation-time probes generated (position classes)
 
     def on(self, feat):
         return self.features is None or feat in self.features
@@ -558,6 +560,10 @@ class Gen:
         self.stmt_budget -= 1
         k = r.random()
         writable = lambda ty: sc.of_type(ty, writable=True)
+        if self.tr and self.on("probes") and self.chance(0.13):
+            st = self.probe_stmt(sc)
+            if st:
+                return st
         if self.on("classes") and self.classes and self.chance(0.22):
             st = self.obj_stmt(sc)
             if st:
@@ -609,6 +615,171 @@ class Gen:
             sc.vars[b] = Var(b, INT)
             return [("chain_assign", [a, b], e)]
         return [self.new_var_stmt(sc)]
+
+    # ---------------------------------------------------------------- evaluation-order probes
+    def probe_stmt(self, sc):
+        """one statement (plus a print of its result) in which at least TWO sub-expressions have a visible
+        effect (the tracing helper), placed in distinct operand positions of one construct."""
+        r = self.rng
+        T = self.T
+        a = lambda ty=INT: T(self.atom(sc, ty))
+        kinds = ["call_pos_kw", "call_kw_kw", "call_pos_pos", "callee_expr", "binop", "boolop", "chain", "ifexp", "list_lit",
+                 "tuple_lit", "dict_lit", "print_args", "unpack_bare", "sub_read", "sub_store", "sub_aug", "slice", "slice_step",
+                 "method_args", "attr_store", "attr_aug", "for_iter", "default_def", "default_rebind", "closure_rebind",
+                 "nested_call_args", "return_like_tuple"]
+        kinds += ["sub_read", "sub_store", "sub_aug", "slice", "slice_step", "attr_store", "attr_aug", "method_args",
+                  "call_pos_kw", "call_kw_kw", "callee_expr"] * 3
+        lists = [v for v in sc.of_type(LIST, writable=True) if v.min_len >= 1]
+        objs = [v for v in self.objs_in(sc, outer=False) if v.cls.fields and v.name not in sc.frozen]
+        fn2 = [f for f in self.funcs if len(f.params) >= 2 and not f.heavy and not any(isinstance(p[1], tuple) for p in f.params)
+               and not any(p[3] for p in f.params[:1]) and not (sc.fn and f.name == sc.fn.get("name"))
+               and (sc.fn is None or f.name not in sc.fn.get("forbidden_calls", ()))]
+        fn1 = [f for f in self.funcs if len(f.params) >= 1 and not f.heavy and not any(isinstance(p[1], tuple) for p in f.params)
+               and not f.params[0][3] and not (sc.fn and f.name == sc.fn.get("name"))
+               and (sc.fn is None or f.name not in sc.fn.get("forbidden_calls", ()))]
+        in_method = bool(sc.fn and sc.fn.get("method_index") is not None)
+        for _ in range(6):
+            k = r.choice(kinds)
+            res = self.fresh()
+            out = None
+            if k in ("call_pos_kw", "call_kw_kw", "nested_call_args") and fn2:
+                f = self.pick(fn2)
+                n = len(f.params)
+                first_kw = 0 if k == "call_kw_kw" else r.randint(1, n - 1)
+                for i, pp in enumerate(f.params):
+                    if pp[3]:
+                        first_kw = min(first_kw, i)
+                if k != "call_kw_kw" and first_kw == 0:
+                    continue
+                pos = [T(self.atom(sc, pp[1])) for pp in f.params[:first_kw]]
+                if k == "nested_call_args" and f.params[0][1] == INT:
+                    pos[0] = T(("bin", "+", a(), a()))
+                kws = [(pp[0], T(self.atom(sc, pp[1]))) for pp in f.params[first_kw:]]
+                if len(kws) > 1 and self.chance(0.5):
+                    r.shuffle(kws)
+                out = [("assign", ("name", res), ("call", f.name, pos, kws))]
+                sc.vars[res] = Var(res, "any")
+            elif k == "call_pos_pos":
+                out = [("assign", ("name", res), ("call", r.choice(["min", "max"]), [a(), a(), a()], []))]
+                sc.vars[res] = Var(res, INT)
+            elif k == "callee_expr" and fn1:
+                f = self.pick(fn1)
+                npos = 0
+                while npos < len(f.params) and not f.params[npos][3]:
+                    npos += 1
+                if any(pp[2] is None for pp in f.params[npos:]):
+                    continue
+                args = [T(self.atom(sc, pp[1])) for pp in f.params[:npos]]
+                out = [("assign", ("name", res), ("callx", T(("name", f.name)), args, []))]
+                sc.vars[res] = Var(res, "any")
+            elif k == "binop":
+                out = [("assign", ("name", res), ("bin", r.choice(["+", "-", "*"]), a(), ("bin", r.choice(["+", "-"]), a(), a())))]
+                sc.vars[res] = Var(res, INT)
+            elif k == "boolop" and self.on("boolop"):
+                out = [("assign", ("name", res), ("boolop", r.choice(["and", "or"]), a(BOOL), a(BOOL)))]
+                sc.vars[res] = Var(res, BOOL)
+            elif k == "chain" and self.on("chain"):
+                out = [("assign", ("name", res), ("cmp", [r.choice(CMPS), r.choice(CMPS)], [a(), a(), a()]))]
+                sc.vars[res] = Var(res, BOOL)
+            elif k == "ifexp" and self.on("ifexp"):
+                out = [("assign", ("name", res), ("ifexp", a(), a(BOOL), a()))]
+                sc.vars[res] = Var(res, INT)
+            elif k == "list_lit" and self.on("containers"):
+                out = [("assign", ("name", res), ("list", [a(), a(), a()]))]
+                sc.vars[res] = Var(res, LIST, min_len=3)
+            elif k == "tuple_lit" and self.on("containers"):
+                out = [("assign", ("name", res), ("tuple", [a(), a()]))]
+                sc.vars[res] = Var(res, TUP)
+            elif k == "dict_lit" and self.on("containers"):
+                k1, k2 = r.sample(KEYS, 2)
+                out = [("assign", ("name", res), ("dict", [(T(("str", k1)), a()), (T(("str", k2)), a())]))]
+                sc.vars[res] = Var(res, DICT, keys=(k1, k2))
+            elif k == "print_args":
+                return self._probe(k, [("print", [a(), a(r.choice([INT, STR, BOOL])), a()])])
+            elif k == "unpack_bare" and self.on("unpack"):
+                n1, n2 = self.fresh(), self.fresh()
+                e1, e2 = a(), a()
+                sc.vars[n1] = Var(n1, INT)
+                sc.vars[n2] = Var(n2, INT)
+                return self._probe(k, [("unpack", [("name", n1), ("name", n2)], ("tuple", [e1, e2]), "bare"),
+                                       ("print", [("name", n1), ("name", n2)])])
+            elif k == "return_like_tuple" and self.on("containers"):
+                out = [("assign", ("name", res), ("tuple", [a(), ("list", [a(), a()]), a(STR)]))]
+                sc.vars[res] = Var(res, "any")
+            elif k == "sub_read" and lists:
+                v = self.pick(lists)
+                out = [("assign", ("name", res), ("sub", T(("name", v.name)), T(("int", r.randrange(v.min_len)))))]
+                sc.vars[res] = Var(res, INT)
+            elif k == "sub_store" and lists:
+                v = self.pick(lists)
+                return self._probe(k, [("assign", ("sub", T(("name", v.name)), T(("int", r.randrange(v.min_len)))), a()),
+                                       ("print", [("name", v.name)])])
+            elif k == "sub_aug" and lists and self.on("aug"):
+                v = self.pick(lists)
+                return self._probe(k, [("aug", r.choice(["+", "-"]), ("sub", T(("name", v.name)), T(("int", r.randrange(v.min_len)))), a()),
+                                       ("print", [("name", v.name)])])
+            elif k in ("slice", "slice_step") and lists and self.on("slices"):
+                v = self.pick(lists)
+                step = T(("int", r.choice([1, 2]))) if k == "slice_step" else None
+                out = [("assign", ("name", res), ("slice", T(("name", v.name)), T(("int", r.randint(0, 1))), T(("int", r.randint(1, 3))), step))]
+                sc.vars[res] = Var(res, LIST)
+            elif k == "method_args" and objs:
+                v = self.pick(objs)
+                ms = [m for m in v.cls.methods + v.cls.fluent if len(m.params) >= 1 and not m.heavy
+                      and not any(isinstance(p[1], tuple) for p in m.params)
+                      and not (in_method and v.name == "self")]
+                if not ms:
+                    continue
+                m = self.pick(ms)
+                first_kw = r.randint(0, len(m.params))
+                for i, pp in enumerate(m.params):
+                    if pp[3]:
+                        first_kw = min(first_kw, i)
+                pos = [T(self.atom(sc, pp[1])) for pp in m.params[:first_kw]]
+                kws = [(pp[0], T(self.atom(sc, pp[1]))) for pp in m.params[first_kw:]]
+                return self._probe(k, [("expr", ("mcall", T(("name", v.name)), m.name, pos, kws)), ("print", [("name", v.name)])])
+            elif k == "attr_store" and objs:
+                v = self.pick(objs)
+                return self._probe(k, [("assign", ("attr", T(("name", v.name)), self.pick(v.cls.fields)), a()),
+                                       ("print", [("name", v.name)])])
+            elif k == "attr_aug" and objs and self.on("aug"):
+                v = self.pick(objs)
+                return self._probe(k, [("aug", "+", ("attr", T(("name", v.name)), self.pick(v.cls.fields)), a()),
+                                       ("print", [("name", v.name)])])
+            elif k == "for_iter" and self.on("for") and sc.loop_depth < 2 and self.on("containers"):
+                j = self.fresh("j")
+                return self._probe(k, [("for", [j], T(("list", [a(), a()])), [("print", [T(("name", j))])], None)])
+            elif k in ("default_def", "default_rebind", "closure_rebind") and self.on("nested") and not in_method \
+                    and sc.kind == "func" and not sc.in_loop:
+                ints = [v for v in sc.of_type(INT, writable=True)]
+                if k != "default_def" and not ints:
+                    continue
+                iname = self.fresh("inner")
+                if k == "default_def":
+                    p1, p2 = self.fresh("p"), self.fresh("p")
+                    d = ("def", iname, [(p1, a(), False), (p2, T(("bin", "+", a(), ("int", 1))), False)],
+                         [("return", ("bin", "-", ("name", p1), ("name", p2)))])
+                    call = ("call", iname, [], []) if self.chance(0.5) else ("call", iname, [a()], [])
+                    out = [d, ("assign", ("name", res), call)]
+                elif k == "default_rebind":
+                    v = self.pick(ints)
+                    p1 = self.fresh("p")
+                    d = ("def", iname, [(p1, ("name", v.name), False)], [("return", ("bin", "*", ("name", p1), ("int", 2)))])
+                    out = [d, ("assign", ("name", v.name), ("bin", "+", ("name", v.name), ("int", r.choice([1, 7])))),
+                           ("assign", ("name", res), ("call", iname, [], []))]
+                else:
+                    v = self.pick(ints)
+                    d = ("def", iname, [], [("return", ("bin", "*", ("name", v.name), ("int", 3)))])
+                    out = [d, ("assign", ("name", v.name), ("bin", "+", ("name", v.name), ("int", r.choice([1, 7])))),
+                           ("assign", ("name", res), ("call", iname, [], []))]
+                sc.vars[res] = Var(res, INT)
+            if out is not None:
+                return self._probe(k, out + [("print", [("name", res)])])
+        return None
+
+    def _probe(self, kind, stmts):
+        self.probes.append(kind)
+        return stmts
 
     def print_stmt(self, sc):
         r = self.rng
@@ -923,7 +1094,18 @@ class Gen:
             if allow_kwonly and self.on("kwonly") and not kwonly and i > 0 and self.chance(0.15):
                 kwonly = True
             if self.on("defaults") and (seen_default or self.chance(0.3)) and ty != LIST:
-                if self.chance(0.35) and scope_for_defaults is not None and self.on("default_expr"):
+                v = self.var_of(scope_for_defaults, ty) if scope_for_defaults is not None else None
+                k = self.rng.random()
+                if k < 0.30 and v is not None and self.on("default_expr"):
+                    dflt = ("name", v.name)               # bare name: its value at DEFINITION time is the default
+                    self.probes.append("default_bare_name")
+                elif k < 0.40 and ty == INT and scope_for_defaults is not None and self.on("default_expr") and self.default_attr(scope_for_defaults):
+                    dflt = self.default_attr(scope_for_defaults)
+                    self.probes.append("default_attribute_read")
+                elif k < 0.50 and self.tr and self.on("default_expr"):
+                    dflt = self.T(self.lit(ty))
+                    self.probes.append("default_effectful")
+                elif k < 0.70 and scope_for_defaults is not None and self.on("default_expr"):
                     dflt = self.expr(scope_for_defaults, ty, 2)
                 else:
                     dflt = self.lit(ty) if not (ty == INT and self.chance(0.2)) else ("neg", self.lit(INT))
@@ -934,6 +1116,36 @@ class Gen:
                 dflt = self.lit(ty)
             params.append((name, ty, dflt, kwonly))
         return params
+
+    def default_attr(self, sc):
+        """an int-valued attribute read usable as a default: field of a visible object or a class constant."""
+        objs = [v for v in self.objs_in(sc) if v.cls.fields and v.name != "self"]
+        if objs:
+            v = objs[0]
+            return ("attr", ("name", v.name), v.cls.fields[0])
+        cs = [c for c in self.classes if c.consts and getattr(c, "complete", False)]
+        if cs:
+            return ("attr", ("name", cs[0].name), cs[0].consts[0])
+        return None
+
+    def T(self, e):
+        """e wrapped in the tracing helper (identity with a visible effect)."""
+        return ("call", self.tr, [e], [])
+
+    def rebind_stmts(self, sc, names=None):
+        """rebind variables between a definition and its use (definition-time vs call-time observability)."""
+        out = []
+        cands = [v for v in sc.vars.values() if v.ty in (INT, STR, BOOL) and v.name not in sc.frozen
+                 and (names is None or v.name in names)]
+        self.rng.shuffle(cands)
+        for v in cands[:self.rng.randint(1, 2)]:
+            if v.ty == INT:
+                out.append(("assign", ("name", v.name), ("bin", "+", ("name", v.name), ("int", self.rng.choice([1, 5, 10])))))
+            elif v.ty == STR:
+                out.append(("assign", ("name", v.name), ("bin", "+", ("name", v.name), ("str", "R"))))
+            else:
+                out.append(("assign", ("name", v.name), ("not", ("name", v.name))))
+        return out
 
     def gen_func(self, outer, name, heavy, nested=False, method_of=None):
         """returns (def stmt, Func)."""
@@ -998,6 +1210,11 @@ class Gen:
             istmt, ifn = self.gen_func(sc, iname, False, nested=True)
             body.append(istmt)
             sc.vars[iname] = Var(iname, "func", cls=ifn)
+            if self.chance(0.6):
+                rb = self.rebind_stmts(sc)
+                if rb:
+                    body += rb
+                    self.probes.append("closure_or_default_rebound_before_call")
             args, kws = self.call_args(sc, ifn, 1)
             call = ("call", iname, args, kws)
             if ifn.ret in (INT, BOOL, STR, LIST, TUP):
@@ -1046,7 +1263,7 @@ class Gen:
     def sig(self, params):
         return [(pn, dflt, kw) for (pn, ty, dflt, kw) in params]
 
-    def gen_fluent(self, outer, c, name=None, params=None):
+    def gen_fluent(self, outer, c, name=None, params=None, index=None):
         """def m(self, p=…): <update a field>; return self"""
         r = self.rng
         name = name or self.fresh("m")
@@ -1055,6 +1272,8 @@ class Gen:
             if self.chance(0.3):
                 params.append((self.fresh("p"), INT, self.lit(INT), self.chance(0.5)))
         sc = self.method_scope(outer, c, name, params)
+        if index is not None:
+            sc.fn["method_index"] = index        # an override may only call what the overridden method could call
         fld = self.pick(c.fields)
         body = []
         if self.chance(0.6) and self.on("aug"):
@@ -1157,6 +1376,11 @@ class Gen:
         own_consts = []
         if base is None:
             own_consts = [(k, self.lit(INT)) for k in consts]
+            gints = [v for v in outer.vars.values() if v.ty == INT] if outer.kind == "module" else []
+            if own_consts and gints and self.on("class_attr_name") and self.chance(0.04):
+                # class attribute initialised from a module variable: evaluated when the class statement runs
+                own_consts[0] = (own_consts[0][0], ("name", self.pick(gints).name))
+                self.probes.append("class_attribute_from_module_name")
         else:
             c.methods = list(base.methods)
             c.fluent = list(base.fluent)
@@ -1194,7 +1418,7 @@ class Gen:
             if c.fluent and self.chance(0.8):
                 i = r.randrange(len(c.fluent))
                 old = c.fluent[i]
-                mdef, mf = self.gen_fluent(outer, c, name=old.name, params=old.params)
+                mdef, mf = self.gen_fluent(outer, c, name=old.name, params=old.params, index=old.index)
                 mf.index = old.index
                 members.append(mdef)
                 c.fluent[i] = mf
@@ -1230,6 +1454,10 @@ class Gen:
             nm = self.fresh("g")
             mod.vars[nm] = Var(nm, STR)
             body.append(("assign", ("name", nm), ("str", "see os.path docs")))
+        # the tracing helper (identity with a visible effect), used by the evaluation-order probes
+        if self.on("probes") and self.chance(0.75):
+            self.tr = self.fresh("tr")
+            body.append(("def", self.tr, [("v", None, False)], [("print", [("str", self.tr), ("name", "v")]), ("return", ("name", "v"))]))
         # module-level variables
         self.stmt_budget = 100
         for _ in range(r.randint(1, 3)):
@@ -1259,6 +1487,19 @@ class Gen:
             self.funcs.append(f)
             if self.chance(0.15):
                 body.append(self.print_stmt(mod))
+            # rebind module-level names between this definition and the calls (defaults are definition-time values)
+            dnames = {d[1] for (_, d, _) in st[2] if d is not None and d[0] == "name"}
+            if dnames or self.chance(0.15):
+                rb = self.rebind_stmts(mod, dnames or None)
+                if rb:
+                    body += rb
+                    self.probes.append("module_name_rebound_after_def")
+            if any(d is not None and d[0] == "attr" for (_, d, _) in st[2]):
+                for (_, d, _) in st[2]:
+                    if d is not None and d[0] == "attr":
+                        body.append(("assign", d, ("bin", "+", d, ("int", 100))))
+                        self.probes.append("attribute_rebound_after_def")
+                        break
         # a module-level object (used from functions as a global name)
         if self.classes and self.chance(0.35):
             top = Scope(self, "module")
@@ -1310,7 +1551,7 @@ class Gen:
                 else:
                     av.append(r.choice(WORDS))
             argvs.append(av)
-        return {"body": body, "entry": "entry", "argvs": argvs}
+        return {"body": body, "entry": "entry", "argvs": argvs, "probes": list(self.probes)}
 
 
 def generate(seed, size="normal", features=None):
@@ -1338,6 +1579,8 @@ class Renderer:
                        later operand that needs statements (calls) has been evaluated
        "for_else_dropped"  the else clause of a for loop is not emitted
        "import_rewrite"    `import a.b` rewrites the text a.b to a_b in string literals of later lines
+       "class_attr_early"  a class attribute initialised from a module variable is evaluated before any module-level
+                           statement has run (class_decl stays outside %unit_init): the variable is still unbound
        "base_call_shift"   Base.m(self, a…) passes the receiver as an ordinary argument to a method whose receiver
                            parameter was removed: one argument too many (only generated for methods without defaults)
     """
@@ -1412,6 +1655,10 @@ class Renderer:
             kws = x[3]
             return self.late(list(x[2]) + [v for _, v in kws],
                              lambda r: f"{x[1]}({self.args_r(r, len(x[2]), kws)})")
+        if k == "callx":
+            kws = x[3]
+            return self.late([x[1]] + list(x[2]) + [v for _, v in kws],
+                             lambda r: f"{r[0]}({self.args_r(r[1:], len(x[2]), kws)})")
         if k == "basecall":
             # explicit base-class call  Base.m(self, args…)
             if "base_call_shift" in self.sim:
@@ -1598,12 +1845,16 @@ def late_hazard(parts):
 
 def render(prog, sim=()):
     r = Renderer(sim)
-    return "\n".join(r.block(prog["body"], "")) + "\n"
+    text = "\n".join(r.block(prog["body"], "")) + "\n"
+    if "class_attr_early" in r.sim and "class_attr_name" in shapes(prog):
+        # the class (with its static initialiser) is declared before any module-level statement has run
+        text = "raise NameError('class attribute initialiser runs before the module code')\n" + text
+    return text
 
 
 # ======================================================================== shapes (for known-finding matchers)
 TAGS = {"int", "bool", "str", "none", "name", "bin", "neg", "not", "cmp", "boolop", "ifexp", "call", "mcall", "list",
-        "tuple", "dict", "sub", "slice", "attr", "basecall", "assign", "chain_assign", "aug", "unpack", "if", "while", "for",
+        "tuple", "dict", "sub", "slice", "attr", "basecall", "callx", "assign", "chain_assign", "aug", "unpack", "if", "while", "for",
         "break", "continue", "pass", "return", "expr", "print", "global", "nonlocal", "def", "class", "import"}
 
 
@@ -1620,7 +1871,7 @@ def walk(x, f):
 
 def contains_call(e):
     found = []
-    walk(e, lambda n: found.append(1) if n[0] in ("call", "mcall") and not (n[0] == "call" and n[1] in ("len", "abs", "min", "max", "range")) else None)
+    walk(e, lambda n: found.append(1) if n[0] in ("call", "mcall", "callx", "basecall") and not (n[0] == "call" and n[1] in ("len", "abs", "min", "max", "range")) else None)
     return bool(found)
 
 
@@ -1668,6 +1919,8 @@ def shapes(prog):
             res.add("for_else")
         elif k == "basecall":
             res.add("base_call")
+        elif k == "class" and any(not is_atomic(c) or c[0] == "name" for _, c in n[3]):
+            res.add("class_attr_name")
         # operations whose bare-name operands lian reads late
         parts = None
         if k == "bin":
@@ -1680,6 +1933,8 @@ def shapes(prog):
             parts = list(n[2]) + [v for _, v in n[3]]
         elif k == "mcall":
             parts = [n[1]] + list(n[3]) + [v for _, v in n[4]]
+        elif k == "callx":
+            parts = [n[1]] + list(n[2]) + [v for _, v in n[3]]
         elif k == "sub":
             parts = [n[1], n[2]]
         elif k == "slice":
